@@ -24,6 +24,7 @@ type Eval struct {
 	pkg    *types.Package
 	depth  int
 	header *Eval // loop step assertions: evaluation context at the loop head
+	pre    *Eval // loop invariants / step assertions: evaluation context when the loop was entered
 }
 
 var (
@@ -630,6 +631,12 @@ func (ev *Eval) call(x *SCall) (sval, error) {
 			}
 			v, err := ev.header.eval(x.Args[0])
 			return sval{v: v}, err
+		case "pre":
+			if ev.pre == nil {
+				return sval{}, fmt.Errorf("pre() is only available in loop invariants and step assertions")
+			}
+			v, err := ev.pre.eval(x.Args[0])
+			return sval{v: v}, err
 		case "len", "cap":
 			v, err := ev.eval(x.Args[0])
 			if err != nil {
@@ -913,10 +920,28 @@ func (ev *Eval) expandSpecFn(fn *SpecFn, args []SExpr, inOld bool) (sval, error)
 	if inOld {
 		sub.st = ev.old
 	}
+	// the body is resolved in the scope of the package that declares the spec function
+	if fn.Pkg != "" && (ev.pkg == nil || ev.pkg.Path() != fn.Pkg) {
+		if tp := ev.g.ctx.typPkgs[fn.Pkg]; tp != nil {
+			sub.pkg = tp.Types
+			sub.pos = token.NoPos
+			sub.fn = nil
+		}
+	}
 	for i, p := range fn.Params {
 		v, err := ev.eval(args[i])
 		if err != nil {
 			return sval{}, err
+		}
+		// a concrete (pointer-like) argument for an interface-typed parameter is boxed, so that
+		// typeOf / type assertions in the body work for receivers of known dynamic type
+		if pt, err := sub.resolveType(p.Type); err == nil && v.Typ != nil && !isNilVal(v) {
+			if _, pIface := under(pt).(*types.Interface); pIface {
+				if _, aIface := under(v.Typ).(*types.Interface); !aIface && v.Typ != untypedInt && payloadIsDirect(v.Typ) && len(v.Comps) == 1 {
+					v = ev.g.boxIface(ev.st, v, v.Typ)
+					v.Typ = pt
+				}
+			}
 		}
 		sub.vars[p.Name] = v
 	}
